@@ -56,6 +56,33 @@ func c23SeqCheck(l *explore.Local, _ struct{}, c c23Seq) *explore.Fail {
 	return nil
 }
 
+// c23Vals: SB written with First, then with every second value (and First alone): the transcript must be exactly those bytes.
+type c23Vals struct {
+	First int `json:"first"`
+}
+
+func c23ValsCheck(l *explore.Local, _ struct{}, c c23Vals) *explore.Fail {
+	m := machine.New(machine.ROMOnly(), machine.Opts{})
+	var want []byte
+	for b := -1; b < 256; b++ {
+		m.Serial.Reset()
+		want = want[:0]
+		m.Map.Write(0xff01, uint8(c.First))
+		want = append(want, uint8(c.First))
+		if b >= 0 {
+			m.Map.Write(0xff01, uint8(b))
+			want = append(want, uint8(b))
+		}
+		l.Trans(1)
+		if !bytes.Equal(m.Serial.Bytes(), want) {
+			return c23Mismatch(m.Serial.Bytes(), want, fmt.Sprintf("SB written with % x", want))
+		}
+	}
+	l.Eval(257)
+	l.Outcome(uint64(c.First))
+	return nil
+}
+
 func c23Mismatch(got, want []byte, ctx string) *explore.Fail {
 	switch {
 	case len(got) > len(want):
@@ -189,7 +216,7 @@ func c23ROMCheck(l *explore.Local, _ struct{}, c c23ROM) *explore.Fail {
 func init() {
 	register("C23", "model_checking", func(c *Ctx) {
 		if c.R != nil {
-			c.R.Rule = "(a) every sequence of up to the length bound over 17 Mapper writes (SB with 4 values, SC in {00,81,80,01,FF}, DMA start, LCD off, sound off, JOYP, DIV, IF, WRAM, FF03), with a recording writer and with no writer, with and without machine cycles in between: the transcript must equal the SB writes in order after every write, SB/SC read FF; (b) every opcode executed with every pointer register, SP, n and nn aimed at FF00, FF01, FF02: the bytes delivered must equal the reference CPU's writes to FF01 (read-modify-write instructions write once, PUSH / LD (nn),SP hit FF01 with one of their two bytes); (c) blargg ROMs: transcript equals the SB stores decoded by a per-instruction monitor"
+			c.R.Rule = "(a) every sequence of up to the length bound over 17 Mapper writes (SB with 4 values, SC in {00,81,80,01,FF}, DMA start, LCD off, sound off, JOYP, DIV, IF, WRAM, FF03), with a recording writer and with no writer, with and without machine cycles in between: the transcript must equal the SB writes in order after every write, SB/SC read FF; (a2) every single value and every ordered pair of values written to SB; (b) every opcode executed with every pointer register, SP, n and nn aimed at FF00, FF01, FF02: the bytes delivered must equal the reference CPU's writes to FF01 (read-modify-write instructions write once, PUSH / LD (nn),SP hit FF01 with one of their two bytes); (c) blargg ROMs: transcript equals the SB stores decoded by a per-instruction monitor"
 			c.R.Assumptions = []string{"delivery through gameboy.New's Config.SerialWriter wiring is compared in C26"}
 		}
 		n := 4
@@ -227,6 +254,15 @@ func init() {
 				}
 				rec()
 			}, func() struct{} { return struct{}{} }, c23SeqCheck)
+		// every byte value, alone and as every ordered pair (the alphabet above only uses four values)
+		explore.Product(c.R, "every-value", explore.PartOpt{Bound: "one write and every ordered pair of writes to SB", Domain: "all 256 values (65,792 sequences)"},
+			func(yield func(c23Vals) bool) {
+				for a := 0; a < 256; a++ {
+					if !yield(c23Vals{First: a}) {
+						return
+					}
+				}
+			}, func() struct{} { return struct{}{} }, c23ValsCheck)
 		explore.Product(c.R, "cpu-stores", explore.PartOpt{History: 256, Bound: "single instruction (the emulator instance is reused from case to case, so stores to SC/IF/JOYP by earlier cases are part of the state)", Domain: "every opcode x pointers {FF00,FF01,FF02,FEFF} x A x flags"},
 			func(yield func(c23CPU) bool) {
 				for op := 0; op < 512; op++ {
